@@ -14,6 +14,7 @@ struct RunResult {
   std::string end = "ok";  // ok | signal:<n> | sanitizer | timeout | exit:<n> | noresult
   std::string stderr_tail;
   uint64_t loghash = 0;
+  uint64_t dkey = 0;       // distinctness key for the evidence (0: the event-log hash)
   uint64_t steps = 0;
   std::map<std::string, uint64_t> counters;
   std::vector<uint64_t> states;            // abstract-state / interleaving hashes seen
